@@ -143,13 +143,20 @@ class Slice:
         self.cap = cp
 
     def __eq__(self, o):
-        return type(o) is Slice and (self.obj, self.path, self.off, self.len, self.cap) == (o.obj, o.path, o.off, o.len, o.cap)
+        if type(o) is not Slice or (self.obj, self.path, self.off, self.cap) != (o.obj, o.path, o.off, o.cap):
+            return False
+        a, b = self.len, o.len
+        if type(a) is int and type(b) is int:
+            return a == b
+        if type(a) is int or type(b) is int:
+            return False
+        return a.eq(b)
 
     def __hash__(self):
-        return hash((self.obj, self.path, self.off, self.len, self.cap))
+        return hash((self.obj, self.path, self.off, self.cap))
 
     def __repr__(self):
-        return "slice(%s%s+%d,len=%d,cap=%d)" % (self.obj, list(self.path), self.off, self.len, self.cap)
+        return "slice(%s%s+%d,len=%s,cap=%d)" % (self.obj, list(self.path), self.off, self.len, self.cap)
 
 
 NILSLICE = Slice(None, (), 0, 0, 0)
@@ -283,6 +290,8 @@ def _shape(v):
         return ("i", v.t)
     if t is Closure:
         return ("c", v.fn, len(v.fv))
+    if t is Slice and v.obj is not None:
+        return ("s", v.obj, v.path, v.off, v.cap)
     return None
 
 
@@ -403,6 +412,14 @@ def _merge(g, a, b):
     if ta is Iface and tb is Iface and a.t == b.t:
         v = _merge(g, a.v, b.v)
         return a if v is a.v else Iface(a.t, v)
+    if ta is Slice and tb is Slice and a.obj is not None and a.obj == b.obj and a.path == b.path and a.off == b.off and a.cap == b.cap:
+        # same backing array: one slice value with a symbolic length
+        la, lb = a.len, b.len
+        if type(la) is int and type(lb) is int and la == lb:
+            return a
+        la = z3.BitVecVal(la, 64) if type(la) is int else la
+        lb = z3.BitVecVal(lb, 64) if type(lb) is int else lb
+        return Slice(a.obj, a.path, a.off, z3.If(g, la, lb), a.cap)
     if ta is Closure and tb is Closure and a.fn == b.fn and len(a.fv) == len(b.fv):
         fv = _merge(g, a.fv, b.fv)
         return a if fv is a.fv else Closure(a.fn, fv)
